@@ -23,6 +23,7 @@ from ..cfront import AnalysisError
 
 STACK_ALLOCATOR = {"pstack", "pbase", "maxuse_stack", "maxuse_arena"}
 ALLOCATOR_TU = "src/engine/engine_memory.c"
+LOG_TU = "src/engine/engine_util_errmem.c"
 
 
 def run(res, tier):
@@ -59,6 +60,10 @@ def run(res, tier):
                     problems.append(("nested", f["line"], f"calls {c} from inside a pool task"))
             for var, line in f.get("gwrites", ()):
                 infos = statics.get(var) or []
+                if f["file"] == LOG_TU:
+                    # the log channel (same named exception as C01 R-GLOBAL): its one-time configuration is claimed with an
+                    # atomic exchange and its state flows only to log output, never back into the simulation
+                    continue
                 if not any(i.get("tls") for i in infos):
                     problems.append(("static", line, f"writes static-storage object `{var}` that is not thread-local"))
             for e in f["events"]:
@@ -248,5 +253,6 @@ def run(res, tier):
         "paths) and agreement with its serial fallback.")
     res.not_decided = ("disjointness of the index-addressed slices written by tasks; data races in general; bit-identity of "
                        "results (reduction order is fixed by the dispatcher placing results after the join, which is what T2 protects).")
-    res.assumptions = ["collision functions reached through mjCOLLISIONFUNC and user callbacks are as summarised by the call graph",
+    res.assumptions = ["the log channel (engine_util_errmem.c) synchronises its own one-time configuration and its state flows only to log output",
+                       "collision functions reached through mjCOLLISIONFUNC and user callbacks are as summarised by the call graph",
                        "error handlers do not return"]
